@@ -339,6 +339,84 @@ fn c28_vacuum_after_compact() -> i32 {
     }
 }
 
+/// Witness class for C28 (bounded): databases that need something specific from the marker and the copy.
+/// (a) node count an exact multiple of the records per node-table page, never compacted; (b) the same after a
+/// compaction that relocated the table; (c) a property B-tree with three levels (long property names), several
+/// hundred properties (a long run of consecutive live pages) and a ring of edges, compacted.  Each is vacuumed,
+/// reopened and compared with what was written.
+fn c28_vacuum_large() -> i32 {
+    use nervusdb_api::{GraphSnapshot, GraphStore, PropertyValue as V};
+    let run = |what: &'static str, nodes: u32, compact_at: Option<u32>, long_fields: u32, long_nodes: u32, short_props: u32| -> Result<(), String> {
+        let d = tmpdir("c28-large");
+        let ndb = d.join("t.ndb");
+        let wal = d.join("t.wal");
+        let name = |f: u32| format!("field_{f:02}_{}", "n".repeat(990));
+        let res = (|| -> Result<(), String> {
+            let mut ids: Vec<u32> = Vec::new();
+            {
+                let e = GraphEngine::open(&ndb, &wal).map_err(|e| e.to_string())?;
+                let mut made = 0u32;
+                while made < nodes {
+                    let upto = match compact_at { Some(c) if made < c => c.min(nodes), _ => nodes };
+                    let mut tx = e.begin_write();
+                    for n in made..upto { ids.push(tx.create_node(1000 + n as u64, 1).map_err(|e| e.to_string())?); }
+                    tx.commit().map_err(|e| e.to_string())?;
+                    made = upto;
+                    if compact_at == Some(made) { e.compact().map_err(|e| format!("{what}: compact failed: {e}"))?; }
+                }
+                let mut tx = e.begin_write();
+                for n in 0..long_nodes.min(nodes) { for f in 0..long_fields { tx.set_node_property(ids[n as usize], name(f), V::Int(n as i64 * 1000 + f as i64)); } }
+                for p in 0..short_props { tx.set_node_property(ids[(p % nodes) as usize], format!("p{p}"), V::String(format!("value-{p}"))); }
+                if long_fields > 0 { for n in 0..nodes.min(64) { tx.create_edge(ids[n as usize], 7, ids[((n + 1) % nodes.min(64)) as usize]); } }
+                tx.commit().map_err(|e| e.to_string())?;
+                if long_fields > 0 || short_props > 0 { e.compact().map_err(|e| format!("{what}: compact failed: {e}"))?; }
+            }
+            nervusdb_storage::vacuum::vacuum_in_place(&ndb, &wal).map_err(|e| format!("{what}: vacuum failed: {e}"))?;
+            let e = GraphEngine::open(&ndb, &wal).map_err(|e| format!("{what}: open after vacuum failed: {e}"))?;
+            let s = e.snapshot();
+            let mut bad = 0usize; let mut total = 0usize; let mut first = String::new();
+            for n in 0..long_nodes.min(nodes) { for f in 0..long_fields {
+                total += 1;
+                let got = s.node_property(ids[n as usize], &name(f));
+                if got != Some(V::Int(n as i64 * 1000 + f as i64)) { bad += 1; if first.is_empty() { first = format!("node {n} long field {f}: {:?}", got); } }
+            } }
+            for p in 0..short_props {
+                total += 1;
+                let got = s.node_property(ids[(p % nodes) as usize], &format!("p{p}"));
+                if got != Some(V::String(format!("value-{p}"))) { bad += 1; if first.is_empty() { first = format!("property p{p}: {:?}", got); } }
+            }
+            if bad > 0 { return Err(format!("{what}: {bad} of {total} properties changed or vanished across the vacuum (first: {first})")); }
+            if long_fields > 0 {
+                let m = nodes.min(64);
+                for n in 0..m {
+                    let out: Vec<u32> = s.neighbors(ids[n as usize], None).map(|e| e.dst).collect();
+                    let inc = s.incoming_neighbors(ids[n as usize], None).count();
+                    if out != vec![ids[((n + 1) % m) as usize]] || inc != 1 { return Err(format!("{what}: edges of node {n} changed across the vacuum (out {:?}, {inc} incoming)", out)); }
+                }
+            }
+            // every node is still there
+            let mut tx = e.begin_write();
+            let extra = tx.create_node(9_000_000, 1).map_err(|e| format!("{what}: create_node after vacuum failed: {e}"))?;
+            tx.commit().map_err(|e| format!("{what}: commit after vacuum failed: {e}"))?;
+            if extra != nodes { return Err(format!("{what}: the node created after the vacuum got id {extra}, {nodes} nodes were stored")); }
+            Ok(())
+        })();
+        let _ = std::fs::remove_dir_all(&d);
+        res
+    };
+    let r = std::panic::catch_unwind(|| -> Result<(), String> {
+        run("512 nodes, never compacted", 512, None, 0, 0, 0)?;
+        run("1024 nodes, node table relocated by a compaction at 100 nodes", 1024, Some(100), 0, 0, 40)?;
+        run("three-level property tree, 500 short properties, edge ring", 48, None, 5, 48, 500)?;
+        Ok(())
+    });
+    match r {
+        Ok(Ok(())) => { println!("conforms: vacuum kept node tables of 512 and 1024 records, a three-level property tree, 500 properties and an edge ring"); 0 }
+        Ok(Err(e)) => { println!("VIOLATION reproduced: {e}"); 1 }
+        Err(_) => { println!("VIOLATION reproduced: panic"); 1 }
+    }
+}
+
 /// Witness class for C26: random insert/delete/lookup sequences over a small key alphabet with large
 /// keys (long runs of equal keys, many leaf and internal splits), checked against a reference multimap
 /// after every step.  `seed` and `steps` bound the search; this is a witness generator, not a proof.
@@ -648,6 +726,58 @@ fn c25_deep_nesting_child() -> i32 {
     let h = std::thread::spawn(move || { let r = nervusdb_api::PropertyValue::decode(&bytes); let ok = r.is_ok(); std::mem::forget(r); ok });
     match h.join() { Ok(ok) => { println!("decode returned {}", if ok { "Ok" } else { "Err" }); 0 } Err(_) => 3 }
 }
+/// Witness class for C25 (bounded, not a proof): a corpus of values of every kind; each encoding is decoded
+/// after being cut at every length and after every single byte was replaced by 0x00 / 0xFF / flipped in its top
+/// bit.  Decoding must return a value or an error (never panic), and the uncut encoding must decode to a value
+/// that encodes to the same bytes.
+fn c25_prefix_sweep() -> i32 {
+    use nervusdb_api::PropertyValue as V;
+    use std::collections::BTreeMap;
+    let mut m1 = BTreeMap::new();
+    m1.insert("k".to_string(), V::Int(7)); m1.insert("name".to_string(), V::String("x".repeat(40))); m1.insert("t".to_string(), V::DateTime(-1));
+    let mut m2 = BTreeMap::new();
+    m2.insert("inner".to_string(), V::Map(m1.clone())); m2.insert("l".to_string(), V::List(vec![V::Float(1.5), V::Null, V::Blob(vec![1, 2, 3])]));
+    let corpus: Vec<V> = vec![
+        V::Null, V::Bool(true), V::Bool(false), V::Int(0), V::Int(i64::MIN), V::Int(i64::MAX), V::Int(-2),
+        V::Float(0.0), V::Float(-0.0), V::Float(f64::NAN), V::Float(f64::INFINITY), V::Float(1.0e-310), V::Float(-123.456),
+        V::String(String::new()), V::String("a".into()), V::String("h\u{e9}llo \u{1F600}".into()), V::String("z".repeat(300)),
+        V::DateTime(0), V::DateTime(i64::MAX), V::DateTime(1_700_000_000_000_000),
+        V::Blob(vec![]), V::Blob(vec![0xFF; 9]), V::Blob((0..=255u8).collect()),
+        V::List(vec![]), V::List(vec![V::Int(1)]), V::List(vec![V::DateTime(5)]), V::List(vec![V::Float(2.0), V::String("s".into()), V::Bool(true)]),
+        V::List(vec![V::List(vec![V::List(vec![V::Int(3), V::Null])]), V::Blob(vec![7; 20])]),
+        V::Map(BTreeMap::new()), V::Map(m1), V::Map(m2),
+    ];
+    let mut n = 0usize;
+    for v in &corpus {
+        let enc = v.encode();
+        let whole = std::panic::catch_unwind(|| V::decode(&enc).map(|d| d.encode()));
+        match whole {
+            Ok(Ok(e2)) if e2 == enc => {}
+            Ok(Ok(_)) => { println!("VIOLATION reproduced: decode(encode(v)) encodes to different bytes for v = {:?}", v); return 1; }
+            Ok(Err(e)) => { println!("VIOLATION reproduced: decode(encode(v)) failed with {:?} for v = {:?}", e, v); return 1; }
+            Err(_) => { println!("VIOLATION reproduced: decode(encode(v)) panicked for v = {:?}", v); return 1; }
+        }
+        for cut in 0..enc.len() {
+            let b = enc[..cut].to_vec();
+            if std::panic::catch_unwind(|| { let _ = V::decode(&b); }).is_err() {
+                println!("VIOLATION reproduced: PropertyValue::decode panicked on the first {cut} of the {} bytes of the encoding of {:?}: input {:02x?}", enc.len(), v, b); return 1;
+            }
+            n += 1;
+        }
+        for pos in 0..enc.len() {
+            for f in 0..3 {
+                let mut b = enc.clone();
+                b[pos] = match f { 0 => 0x00, 1 => 0xFF, _ => b[pos] ^ 0x80 };
+                if std::panic::catch_unwind(|| { let _ = V::decode(&b); }).is_err() {
+                    println!("VIOLATION reproduced: PropertyValue::decode panicked on the encoding of {:?} with byte {pos} set to {:#04x}: input {:02x?}", v, b[pos], b); return 1;
+                }
+                n += 1;
+            }
+        }
+    }
+    println!("conforms: {} values round-trip; {n} cut or corrupted encodings decode to a value or an error without panicking", corpus.len());
+    0
+}
 fn c25_deep_nesting() -> i32 {
     let exe = std::env::current_exe().unwrap();
     let out = std::process::Command::new(exe).arg("c25_deep_nesting_child").output();
@@ -672,6 +802,8 @@ fn main() {
         Some("c17_truncate_every_byte") => c17_truncate_every_byte(),
         Some("c17_commit_after_tail") => c17_commit_after_tail(&[0x01, 0x02]),
         Some("c18_node_table_spill") => c18_node_table_spill(),
+        Some("c28_vacuum_large") => c28_vacuum_large(),
+        Some("c25_prefix_sweep") => { std::panic::set_hook(Box::new(|_| {})); c25_prefix_sweep() }
         Some("c25_deep_nesting") => c25_deep_nesting(),
         Some("c25_deep_nesting_child") => c25_deep_nesting_child(),
         Some("c27_key_samples") => c27_key_samples(),
